@@ -2,6 +2,8 @@
 
 package app
 
+import "io"
+
 // Export shims for the verification harness (overlaid at build time).
 
 func VerifBuildPathResolver(paths []string) (func(string) string, error) {
@@ -10,3 +12,7 @@ func VerifBuildPathResolver(paths []string) (func(string) string, error) {
 
 func VerifClearResumeData(outDir, root string) error { return clearResumeData(outDir, root) }
 func VerifHasResumeData(outDir, root string) bool   { return hasResumeData(outDir, root) }
+
+func VerifRecvDumbDiscardReader(r io.Reader) (string, error) {
+	return recvDumbDiscardReader(r, nil)
+}
